@@ -111,7 +111,6 @@ class Cluster:
             # Manage each cluster
             for c in self.cl:
                 if not self._clusters[c]['ingest']['status']:
-                    self._clusters[c]['usage_data']['ingest'] = 0
                     self._clusters[c]['ingest']['demand'] = 0
             yield self.env.timeout(TIMESTEP)
 
